@@ -626,7 +626,7 @@ func init() {
 		Level: "exploration",
 		Rule: "process monitor on the built cmd/bcl (rebuilt from /repo by run.sh): stdout, stderr and exit status of each child process are compared with what the library gives in-process for the same file, input name and options (ParseFile(disasm, stats) + Execute(trace, stats) + the documented result lines; exit 0 / 1), across equivalent argument vectors: every subset of -d -t -r -s spelled short, long, mixed, clustered in any letter order, split clusters, repeated letters, with the file before, between, after the flags and after '--', given as '-' or omitted with standard input. " +
 			"23 usage / I/O error cases must exit with the documented status 2 / 1 and a message on stderr. '--bdump' (derived and explicit name) must not change the outcome and '--bload F', '--bload=F' and '--bload < F' must reproduce output and exit status of the direct run. Every child gets an explicit stdin and a 60 s watchdog (firing = inconclusive). " +
-			"distinct = hash(program, flags); non-trivial = all vectors of the case ran to exit and were compared Also: standard input through a pipe in two pieces with a pause; file stems ending in b/c/l/.; --bdump=/dev/full; the same flag given twice in both orders; a dump name containing '='; re-dump onto the loaded file; a dump over an existing longer dump. Also: the file given by a name that is not a regular file (/dev/stdin, a named pipe that a writer feeds); the bare command and '-' on every kind of standard input; '-' together with a file name (usage error); dump file names starting with a dash or a dot or containing blanks, loaded back and re-dumped (/dev/null, an empty regular file, a program file).",
+			"distinct = hash(program, flags); non-trivial = all vectors of the case ran to exit and were compared Also: standard input through a pipe in two pieces with a pause; file stems ending in b/c/l/.; --bdump=/dev/full; the same flag given twice in both orders; a dump name containing '='; re-dump onto the loaded file; a dump over an existing longer dump. Also: the file given by a name that is not a regular file (/dev/stdin, a named pipe that a writer feeds); the bare command and '-' on every kind of standard input; '-' together with a file name (usage error); dump file names starting with a dash or a dot or containing blanks, loaded back and re-dumped (/dev/null, an empty regular file, a program file). The 4096-byte read boundary swept over five programs (file argument, bare command, '-'), compared with the library's bytes API; generated programs start with a line end, CR LF, a comment or blanks in turn.",
 		Assumptions:   []string{"the library's in-process result is the reference (C01-C04, C19 check the library itself)"},
 		MinNontrivial: 60,
 		Run: func(c *core.Ctx) {
